@@ -181,6 +181,29 @@ func c08Run(c *config, items []c08Item, label string, sample bool) {
 		}
 	}
 	if !fresh {
+		// stored IDs: the generator knows whether they are the positions LLVM assigns (accepted, and left as
+		// they are) or whether one of them is another number, too high or too low (an error, never a renumbering)
+		wantS := c08Llvm(items)
+		switch label {
+		case "consistent_ids":
+			bad := oc != ocOk
+			for k, it := range items {
+				if !bad && objs[k] != nil && !it.named && wantS[k] >= 0 && objs[k].ID() != wantS[k] {
+					bad = true
+				}
+			}
+			if bad {
+				o.Fail("stored_ids", "", "stored IDs equal to LLVM's numbers are rejected or changed", map[string]interface{}{"shape": c08Enc(items), "result": res})
+			} else {
+				o.Pass("stored_ids")
+			}
+		case "one_wrong_id":
+			if oc != ocErr {
+				o.Fail("stored_ids", "", "a stored ID that is not the value's position is accepted (or crashes)", map[string]interface{}{"shape": c08Enc(items), "result": res})
+			} else {
+				o.Pass("stored_ids")
+			}
+		}
 		return
 	}
 	want := c08Llvm(items)
@@ -711,6 +734,10 @@ func runC08(c *config) {
 			k := r.intn(len(stored))
 			if want[k] >= 0 && !stored[k].named {
 				stored[k].id = want[k] + 1 + int64(r.intn(3))
+				if want[k] >= 2 && r.coin() {
+					// a number that is too low (an earlier value's), not only one that is too high
+					stored[k].id = 1 + int64(r.intn(int(want[k])-1))
+				}
 				c08Run(c, stored, "one_wrong_id", false)
 			}
 		}
